@@ -17,9 +17,9 @@ Open Scope Z_scope.
 Record event := { ek : Z; ecell : Z; ea : Z; eb : Z; ec : Z }.
 Definition ev_ k c a b d := Some {| ek := k; ecell := c; ea := a; eb := b; ec := d |}.
 Definition kR := 0. Definition kW := 1. Definition kCAS := 3. Definition kLock := 4. Definition kBusy := 5.
-Definition kMark := 7.
+Definition kMark := 7. Definition kWalk := 8. Definition kUnlock := 6.
 Definition cellState := 0. Definition cellInproc := 1. Definition cellCstate := 2.
-Definition cellWg := -3. Definition cellMark := -4.
+Definition cellWg := -3. Definition cellMark := -4. Definition cellMutex := -2. Definition cellWalk := -5.
 Definition b2z (b : bool) : Z := if b then 1 else 0.
 
 Definition cev (s : est) (c : cpc) : option event :=
@@ -63,7 +63,7 @@ Definition step_ev (s : est) (w : who) : option event :=
                | None => None
                | Some u => match upc u with
                            | UIdle => match utodo u with [] => None | _ => ev_ kMark cellMark 13 0 0 end
-                           | ULd _ => ev_ kR cellState (st s) 0 0
+                           | UWr _ | ULd _ => ev_ kR cellState (st s) 0 0
                            | UPut _ _ => None
                            end
                end
@@ -93,17 +93,37 @@ Definition forced (s : est) (w : who) : bool :=
 Definition silent (s : est) (w : who) : bool :=
   negb (terminal s w) && negb (forced s w) && match step_ev s w with None => true | Some _ => false end.
 
-Fixpoint skip_silent (fuel : nat) (s : est) (w : who) : est :=
-  match fuel with O => s | S f => if silent s w then skip_silent f (step s w) w else s end.
-Definition bstep (s : est) (w : who) : est * option event :=
-  let s1 := skip_silent 12 s w in
-  (skip_silent 12 (step s1 w) w, step_ev s1 w).
-
-Fixpoint btrace (sched : list who) (s : est) : list (option event) * est :=
-  match sched with
-  | [] => ([], s)
-  | w :: r => let '(s', e) := bstep s w in let '(t, sf) := btrace r s' in (e :: t, sf)
+(* the run is over the fine-grained machine (Model/StreamState.v, "The pendingData mutex"): the instrumented build
+   has scheduling points at pendingData's Lock/Unlock and in front of every element access of the walks *)
+Definition fstep_ev (f : fst_) (w : who) : option event :=
+  match faction f w with
+  | FPlain => step_ev (base f) w
+  | FLock => ev_ kLock cellMutex 0 0 0
+  | FBusy => ev_ kBusy cellMutex 0 0 0
+  | FWalk i => ev_ kWalk cellWalk (Z.of_nat i) 0 0
+  | FCommit => None
+  | FUnlock => ev_ kUnlock cellMutex 0 0 0
   end.
+Definition fsilent (f : fst_) (w : who) : bool :=
+  match faction f w with
+  | FPlain => silent (base f) w
+  | FCommit => true
+  | _ => false
+  end.
+
+Fixpoint skip_silent (fuel : nat) (f : fst_) (w : who) : fst_ :=
+  match fuel with O => f | S k => if fsilent f w then skip_silent k (fstep f w) w else f end.
+Definition bstep (f : fst_) (w : who) : fst_ * option event :=
+  let f1 := skip_silent 12 f w in
+  (skip_silent 12 (fstep f1 w) w, fstep_ev f1 w).
+
+Fixpoint btrace_f (sched : list who) (f : fst_) : list (option event) * fst_ :=
+  match sched with
+  | [] => ([], f)
+  | w :: r => let '(f', e) := bstep f w in let '(t, ff) := btrace_f r f' in (e :: t, ff)
+  end.
+Definition btrace (sched : list who) (s : est) : list (option event) * est :=
+  let '(t, f) := btrace_f sched (finit s) in (t, base f).
 
 Definition ev_eqb (a b : event) : bool :=
   (ek a =? ek b) && (ecell a =? ecell b) && (ea a =? ea b) && (eb a =? eb b) && (ec a =? ec b).
